@@ -26,8 +26,10 @@ type C14Case struct {
 	Procs    int     `json:"procs"`
 	Seed     uint64  `json:"seed"`
 	DrawMain bool    `json:"drawmain,omitempty"`
-	Late     int     `json:"late,omitempty"`    // a goroutine that registers this many cleanups while the cleanups of the test case are running
-	LateCtx  bool    `json:"latectx,omitempty"` // ... and asks for the context then: the property function has returned, so it must be a cancelled one
+	Late     int     `json:"late,omitempty"`     // a goroutine that registers this many cleanups while the cleanups of the test case are running
+	RawLog   bool    `json:"rawlog,omitempty"`   // -rapid.log
+	ShrinkMS int     `json:"shrinkms,omitempty"` // > 0: minimization attempts run the property (and its goroutines) on fresh Ts
+	LateCtx  bool    `json:"latectx,omitempty"`  // ... and asks for the context then: the property function has returned, so it must be a cancelled one
 }
 
 type c14 struct{}
@@ -66,6 +68,10 @@ func (c14) Gen(dt *drv.T, c *Ctx) any {
 	cs.Procs = pick(dt, "procs", 2, 4, 16)
 	cs.Seed = drv.Uint64Range(1, 1<<40).Draw(dt, "seed")
 	cs.DrawMain = drv.Bool().Draw(dt, "drawmain")
+	cs.RawLog = chance(dt, "rawlog", 30)
+	if !quiet && chance(dt, "shrink", 40) {
+		cs.ShrinkMS = pick(dt, "shrinkms", 2, 10)
+	}
 	if chance(dt, "late", 35) {
 		cs.Late = drv.IntRange(1, 40).Draw(dt, "nlate")
 		cs.LateCtx = drv.Bool().Draw(dt, "latectx")
@@ -228,7 +234,7 @@ func (c14) Run(c *Ctx, csAny any) Outcome {
 			t.Cleanup(func() { close(released) }) // registered last: the first cleanup to run
 		}
 	}
-	obs := RunCheck(CheckCfg{Name: "TestC14", Seed: cs.Seed, Checks: cs.Checks, ShrinkNS: 0, NoFailFile: true, Verbose: cs.Verbose}, prop)
+	obs := RunCheck(CheckCfg{Name: "TestC14", Seed: cs.Seed, Checks: cs.Checks, ShrinkNS: int64(cs.ShrinkMS) * 1e6, NoFailFile: true, Verbose: cs.Verbose, Log: cs.RawLog}, prop)
 	if n := len(invs); n > 0 && viol == nil {
 		viol = invs[n-1].validate()
 	}
@@ -236,6 +242,12 @@ func (c14) Run(c *Ctx, csAny any) Outcome {
 	out.Classes = append(out.Classes, fmt.Sprintf("goroutines-%02d", len(cs.Gs)+1))
 	if cs.Verbose {
 		out.Classes = append(out.Classes, "verbose")
+	}
+	if cs.RawLog {
+		out.Classes = append(out.Classes, "rapid.log")
+	}
+	if cs.ShrinkMS > 0 {
+		out.Classes = append(out.Classes, "with-minimization-attempts")
 	}
 	if len(invs) > 1 {
 		out.Classes = append(out.Classes, "T-reused-or-replayed")
